@@ -390,6 +390,19 @@ def run_case(case, ctx, full_output=True):
         else:
             dobj = nd.Derivative(rec, step=step_obj, method=method, n=n, order=order,
                                  full_output=full_output)
+        if isinstance(x, np.ndarray) and x.ndim >= 1 and x.dtype.kind == 'f' and int(abs(xs[0]) * 1e6) % 3 == 0:
+            # the caller's own array updated in place between two calls of the same object (a solver's state vector)
+            target = x.copy()
+            x[...] = target * 1.0625 + 0.03125
+            try:
+                with np.errstate(all='ignore'):
+                    dobj(x)
+            except Exception:
+                pass
+            x[...] = target
+            _OBS.clear()
+            del rec.calls[:]
+            ctx.count('same_array_updated_in_place_between_calls')
         with np.errstate(all='ignore'):
             out = dobj(x)
     except Exception as exc:
